@@ -14,6 +14,11 @@ class OracleError(Exception):
     """Internal problem of the reference model (harness error, exit 2)."""
 
 
+class NonFinite(Exception):
+    """A NaN / infinity reached the exact conversion.  The generators never produce one, so it can only be a
+    number returned by the code under test: the runner reports it as a failure of the case, not as a harness error."""
+
+
 def frac(x):
     """Exact conversion of int / Fraction / float / numpy scalar to Fraction."""
     if isinstance(x, F):
@@ -23,6 +28,8 @@ def frac(x):
     if isinstance(x, int):
         return F(x)
     if isinstance(x, float):
+        if x != x or x in (float("inf"), float("-inf")):
+            raise NonFinite(repr(x))
         return F(x)
     if hasattr(x, "item"):
         return frac(x.item())
